@@ -59,6 +59,43 @@ def pair_checks(rng, kind, norb, ne, spec_fail):
     return n
 
 
+def model_update_cases(rng, n_cases):
+    """update_greens_function of both CPMC trials on ARBITRARY dyadic matrices (the Lean theorem holds for any
+    matrix) -> protocol lines for the Lean model `greenCode` and the implementation's outputs"""
+    import jax.numpy as jnp
+    from fractions import Fraction
+    from ad_afqmc import wavefunctions
+    lines, refs = [], []
+    for k in range(n_cases):
+        kind = ("ghf_cpmc", "uhf_cpmc")[k % 2]
+        norb = rng.choice([2, 3])
+        m = 2 * norb
+        G = np.array([[rng.randint(-16, 16) / 16.0 for _ in range(m)] for _ in range(m)])
+        if kind == "uhf_cpmc":
+            G[:norb, norb:] = 0.0
+            G[norb:, :norb] = 0.0
+        (si, i), (sj, j) = rng.sample([(s, p) for s in (0, 1) for p in range(norb)], 2)
+        c = [rng.choice([0.25, -0.25, 0.75, 1.5, -0.5]), rng.choice([0.5, -0.375, 0.125, -0.75])]
+        I, J = i + si * norb, j + sj * norb
+        ratio = (1 + c[0] * G[I, I]) * (1 + c[1] * G[J, J]) - c[0] * c[1] * G[I, J] * G[J, I]
+        if abs(ratio) < 0.05:
+            continue
+        idx = jnp.array([[si, i], [sj, j]])
+        if kind == "ghf_cpmc":
+            trial = wavefunctions.ghf_cpmc(norb, (1, 1))
+            out = np.array(trial.update_greens_function(jnp.array(G), ratio, idx, jnp.array(c)))
+        else:
+            trial = wavefunctions.uhf_cpmc(norb, (1, 1))
+            g2 = jnp.array([G[:norb, :norb], G[norb:, norb:]])
+            o2 = np.array(trial.update_greens_function(g2, ratio, idx, jnp.array(c)))
+            out = np.zeros((m, m))
+            out[:norb, :norb], out[norb:, norb:] = o2[0], o2[1]
+        fr = lambda x: (lambda q: str(q.numerator) if q.denominator == 1 else f"{q.numerator}/{q.denominator}")(Fraction(float(x)))
+        lines.append(f"green {m} {I} {J} {fr(c[0])} {fr(c[1])} " + " ".join(fr(x) for x in G.ravel()))
+        refs.append((kind, out, {"kind": kind, "norb": norb, "pair": [[si, i], [sj, j]], "constants": c, "G": G.tolist()}))
+    return lines, refs
+
+
 def fast_vs_slow(rng, kind, nn, spec_fail, nsteps=3):
     import jax.numpy as jnp
     from jax import random as jr
@@ -210,7 +247,7 @@ def enumerate_step(rng, kind, spec_fail, uniform_density, chol_onsite=True):
 def run(ctx):
     systems.setup_jax()
     rng = random.Random(ctx.seed)
-    proofs_ok = ctx.build_and_audit()
+    proofs_ok = ctx.build_and_audit(modules=["AfqmcVerif.Props.C10", "AfqmcVerif.Base.RatIO"])
     spec_fail = []
     evals = 0
     # (a)
@@ -220,6 +257,32 @@ def run(ctx):
                 evals += pair_checks(rng, kind, norb, ne, spec_fail)
             except Exception as ex:
                 spec_fail.append((kind, "pair update checks run", {"error": repr(ex)[:300]}))
+    # (a') the update routine vs the Lean model of its formula, on arbitrary matrices
+    mism = []
+    try:
+        from fractions import Fraction
+        lines, refs = model_update_cases(rng, 24 if ctx.tier == "quick" else 120)
+        model = common.lean_run("C10", lines) if lines else []
+        for k, (kind, out, det) in enumerate(refs):
+            got = model[k] if k < len(model) else None
+            if got in (None, "bad-op", "singular"):
+                mism.append({**det, "model": got})
+                continue
+            want = np.array([float(Fraction(x)) for x in got.split()]).reshape(out.shape)
+            mask = np.ones_like(out, dtype=bool)
+            if kind == "uhf_cpmc":      # the per-spin code stores the two diagonal blocks only
+                nb = det["norb"]
+                mask[:nb, nb:] = False
+                mask[nb:, :nb] = False
+            if np.abs(out - want)[mask].max() > 1e-10 * max(1.0, np.abs(want).max()):
+                mism.append({**det, "max_diff": float(np.abs(out - want)[mask].max())})
+        evals += len(refs)
+        model_cases = len(refs)
+    except Exception as ex:
+        ctx.broken.append({"kind": "driver", "error": str(ex)[-1500:]})
+        model_cases = 0
+    if mism:
+        ctx.broken.append({"kind": "correspondence", "what": "update_greens_function vs Lean greenCode", "first": mism[:2], "count": len(mism)})
     # (b) HS constants
     for u, dt in ((4.0, 0.05), (8.0, 0.01), (1.0, 0.5)):
         S = systems.make_hubbard(rng, systems.chain_adjacency(3), u, (1, 1), "uhf_cpmc", "cpmc", dt=dt, n_walkers=1)
@@ -255,9 +318,9 @@ def run(ctx):
                        "trial density, branch probabilities measured on the implementation by bisection of the uniform numbers")
     ctx.cov["samples"] = [json.dumps(enum_stats[:2])]
     ctx.cov["enumerations"] = enum_stats
-    ctx.cov["correspondence"] = {"evaluations": evals}
+    ctx.cov["correspondence"] = {"evaluations": evals, "lean_model_update_cases": model_cases, "mismatches": len(mism)}
     ctx.assumptions += ["jsp.linalg.expm, erf (uniform numbers from gaussians), arccosh/exp for the HS constants (monitored)",
-                        "theorems are stated for one spin block / the generalized layout; the same-spin rank-two Green's update is validated, not proved"]
+                        "theorems are stated for one block of spin-orbitals (the generalised layout); the per-spin layout of uhf_cpmc is its block-diagonal case"]
     seen = set()
     for name, clause, det in spec_fail:
         if (name, clause) in seen:
